@@ -16,11 +16,14 @@ def devStep (cfg : MCfg) (t : Table) (m : Name) (line : Line) : Name :=
     | some (tgt, _) => tgt
     | none => m
 
-/-- environment assumptions for one table: a bare return moves nothing, and the vendor moves
-    outside the table lead to table levels -/
+/-- environment assumptions for one table: a bare return moves nothing, the vendor moves outside the
+    table lead to table levels, and the table lies in the domain of the device assumption (`SessPrefixFree`) -/
 structure EnvOK (cfg : MCfg) (t : Table) : Prop where
   inertRet : ∀ m, tableMove t cfg.extra m "" = none
   extraIn : ∀ e ∈ cfg.extra, e.2.2 ∈ names t
+  /-- the table is inside the domain of the device assumption: no session key covers another
+      (EOS names that are prefix- or case-related are excluded — there the real prompts overlap, finding F24) -/
+  prefixFree : SessPrefixFree t
 
 theorem tableMove_target {cfg : MCfg} {t : Table} (hw : WF t) (he : EnvOK cfg t) {m : Name} {line : Line} {tgt : Name} {ask : Bool}
     (h : tableMove t cfg.extra m line = some (tgt, ask)) : tgt ∈ names t := by
@@ -970,7 +973,17 @@ theorem Singleton.unamb {t : Table} (h : Singleton t) (m : Name) : Unamb t m := 
   have : l' = l := nodup_map_inj h hl' hl hp
   rw [this, hn]
 
-theorem acquireIter_hz {cfg : MCfg} (c : Cfg) (dest : Name) {w : W MDev} (hi : Inv c cfg w) (hs : Singleton w.tbl) :
+/-- `dest` is admitted only by its own prompt: no other level's prompt is classified as `dest` -/
+def Own (t : Table) (dest : Name) : Prop := ∀ m ∈ names t, dest ∈ classify t (promptKey t m) → m = dest
+
+instance (t : Table) (dest : Name) : Decidable (Own t dest) := by unfold Own; infer_instance
+
+theorem own_of_singleton {t : Table} (hs : Singleton t) (dest : Name) : Own t dest := by
+  intro m hm hd
+  obtain ⟨lm, hlm⟩ := mode_lookup hm
+  exact (classify_unamb hlm (hs.unamb _) hd).symm
+
+theorem acquireIter_hz {cfg : MCfg} (c : Cfg) (dest : Name) {w : W MDev} (hi : Inv c cfg w) (hs : Own w.tbl dest) :
     (acquireIter c (modeDev cfg) dest w).1.hazard = w.hazard := by
   obtain ⟨g1, g2, g3⟩ := getPrompt_ok hi.wf hi.env hi.ch (cfg := cfg)
   unfold acquireIter
@@ -982,7 +995,7 @@ theorem acquireIter_hz {cfg : MCfg} (c : Cfg) (dest : Name) {w : W MDev} (hi : I
     have hz : (w.hazard || (w.belief == DUMMY && cls.contains dest && (modeDev cfg).mode ch1.dev != dest)) = w.hazard := by
       have : (cls.contains dest && (modeDev cfg).mode ch1.dev != dest) = false := by
         by_cases hd : dest ∈ cls
-        · have := classify_unamb hlm (hs.unamb _) (hcls ▸ hd)
+        · have := hs _ hi.ch.dev.modeIn (hcls ▸ hd)
           have hm : (modeDev cfg).mode ch1.dev = dest := by show ch1.dev.mode = dest; rw [g2, this]
           simp [hm]
         · simp [hd]
@@ -995,7 +1008,7 @@ theorem acquireIter_hz {cfg : MCfg} (c : Cfg) (dest : Name) {w : W MDev} (hi : I
     · split <;> exact hz
 
 theorem acquireLoop_hz {cfg : MCfg} (c : Cfg) (dest : Name) :
-    ∀ (fuel count : Nat) {w : W MDev}, Inv c cfg w → Singleton w.tbl →
+    ∀ (fuel count : Nat) {w : W MDev}, Inv c cfg w → Own w.tbl dest →
       (acquireLoop c (modeDev cfg) dest fuel count w).1.hazard = w.hazard := by
   intro fuel
   induction fuel with
@@ -1012,13 +1025,14 @@ theorem acquireLoop_hz {cfg : MCfg} (c : Cfg) (dest : Name) :
       · exact h1
       · exact (ih _ a1 (f1 ▸ hs)).trans h1
 
-theorem acquirePriv_hz {cfg : MCfg} (c : Cfg) (dest : Name) {w : W MDev} (hi : Inv c cfg w) (hs : Singleton w.tbl) :
+theorem acquirePriv_hz {cfg : MCfg} (c : Cfg) (dest : Name) {w : W MDev} (hi : Inv c cfg w) (hs : Own w.tbl dest) :
     (acquirePriv c (modeDev cfg) w dest).1.hazard = w.hazard := by
   unfold acquirePriv; split
   · rfl
   · exact acquireLoop_hz c dest _ _ hi hs
 
-theorem acquireAppropriate_hz {cfg : MCfg} (c : Cfg) (level : Name) {w : W MDev} (hi : Inv c cfg w) (hs : Singleton w.tbl) :
+theorem acquireAppropriate_hzU {cfg : MCfg} (c : Cfg) (level : Name) {w : W MDev} (hi : Inv c cfg w)
+    (hs : Own w.tbl (if level ≠ "" then level else c.default)) :
     (acquireAppropriate c (modeDev cfg) w level).1.hazard = w.hazard := by
   unfold acquireAppropriate
   by_cases h1 : level = "" ∧ w.generic = true
@@ -1032,6 +1046,10 @@ theorem acquireAppropriate_hz {cfg : MCfg} (c : Cfg) (level : Name) {w : W MDev}
       · rw [if_pos h3]; exact acquirePriv_hz c _ hi hs
       · rw [if_neg h3]
 
+theorem acquireAppropriate_hz {cfg : MCfg} (c : Cfg) (level : Name) {w : W MDev} (hi : Inv c cfg w) (hs : Singleton w.tbl) :
+    (acquireAppropriate c (modeDev cfg) w level).1.hazard = w.hazard :=
+  acquireAppropriate_hzU c level hi (own_of_singleton hs _)
+
 theorem configsEnter_hz {cfg : MCfg} (c : Cfg) (level : Name) {w : W MDev} (hi : Inv c cfg w) (hs : Singleton w.tbl) :
     (configsEnter c (modeDev cfg) w level).1.hazard = w.hazard := by
   unfold configsEnter
@@ -1042,7 +1060,7 @@ theorem configsEnter_hz {cfg : MCfg} (c : Cfg) (level : Name) {w : W MDev} (hi :
     · rw [if_pos h2]
     · rw [if_neg h2]
       by_cases h3 : w.belief ≠ (if level ≠ "" then level else configLevel)
-      · rw [if_pos h3]; exact acquirePriv_hz c _ hi hs
+      · rw [if_pos h3]; exact acquirePriv_hz c _ hi (own_of_singleton hs _)
       · rw [if_neg h3]
 
 theorem sendLines_hz {σ : Type} (d : Dev σ) (tag : Option (Option Name × Kind)) (stop : Bool) :
@@ -1122,7 +1140,7 @@ theorem step_hz {cfg : MCfg} (c : Cfg) {w : W MDev} (hi : Inv c cfg w) (hs : Sin
       · exact (abortConfig_hz c c1 (c2 ▸ hs)).trans h
       · exact h
     · exact h
-  | acquire level => exact acquirePriv_hz c level hi hs
+  | acquire level => exact acquirePriv_hz c level hi (own_of_singleton hs _)
   | interactive lines level =>
     show (sendInteractive c (modeDev cfg) w lines level).1.hazard = _
     unfold sendInteractive
@@ -1153,5 +1171,71 @@ theorem run_hz {cfg : MCfg} (c : Cfg) : ∀ (ops : List Op) {w : W MDev}, Inv c 
     have h1 := step_hz c hi hs.1 op hh.1 (cfg := cfg)
     obtain ⟨s1, _⟩ := step_inv c hi op hh.1 (cfg := cfg)
     exact (ih s1 hh.2 hs.2).trans h1
+
+/-! ### a static sufficient condition on ANY table: the history never names a level that shares its prompt -/
+
+/-- operations whose named level is admitted only by its own prompt (`Own`): commands (default level), acquisitions
+    and interactive sessions at such a level, generic-mode toggles.  No configs, no registrations: on IOS-XR / Junos
+    the configuration levels share their prompt, which is exactly where the hazard lives. -/
+def OpStatic (c : Cfg) (t : Table) : Op → Prop
+  | .sendCommand _ => Own t c.default
+  | .sendCommands _ _ => Own t c.default
+  | .acquire l => Own t l
+  | .interactive _ l => Own t (if l ≠ "" then l else c.default)
+  | .setGeneric _ => True
+  | .sendConfigs _ _ _ => False
+  | .register _ => False
+
+theorem step_static {cfg : MCfg} (c : Cfg) {w : W MDev} (hi : Inv c cfg w) (op : Op) (hop : OpOK c cfg w op)
+    (hst : OpStatic c w.tbl op) :
+    (step c (modeDev cfg) w op).1.hazard = w.hazard ∧ (step c (modeDev cfg) w op).1.tbl = w.tbl := by
+  cases op with
+  | sendCommand line =>
+    refine ⟨?_, (sendCommands_inv c [line] false hi (by intro x hx; simp at hx; subst hx; exact hop) (cfg := cfg)).2.1⟩
+    show (sendCommands c (modeDev cfg) w [line] false).1.hazard = _
+    unfold sendCommands
+    have h := acquireAppropriate_hzU c "" hi (by simpa [OpStatic] using hst) (cfg := cfg)
+    split <;> rename_i heq <;> rw [heq] at h
+    · split
+      · exact h
+      · simp only; split <;> rename_i heq2 <;> (have e := congrArg (fun r => r.1.hazard) heq2; simp only [sendLines_hz] at e; exact e.symm.trans h)
+    · exact h
+  | sendCommands lines stop =>
+    refine ⟨?_, (sendCommands_inv c lines stop hi hop (cfg := cfg)).2.1⟩
+    show (sendCommands c (modeDev cfg) w lines stop).1.hazard = _
+    unfold sendCommands
+    have h := acquireAppropriate_hzU c "" hi (by simpa [OpStatic] using hst) (cfg := cfg)
+    split <;> rename_i heq <;> rw [heq] at h
+    · split
+      · exact h
+      · simp only; split <;> rename_i heq2 <;> (have e := congrArg (fun r => r.1.hazard) heq2; simp only [sendLines_hz] at e; exact e.symm.trans h)
+    · exact h
+  | sendConfigs lines level stop => exact absurd hst (by simp [OpStatic])
+  | acquire level => exact ⟨acquirePriv_hz c level hi hst, (acquirePriv_inv c level hi).tbl⟩
+  | interactive lines level =>
+    refine ⟨?_, (sendInteractive_inv c lines level hi hop (cfg := cfg)).2.1⟩
+    show (sendInteractive c (modeDev cfg) w lines level).1.hazard = _
+    unfold sendInteractive
+    have h := acquireAppropriate_hzU c level hi hst (cfg := cfg)
+    split <;> rename_i heq <;> rw [heq] at h
+    · simp only; split <;> rename_i heq2 <;> (have e := congrArg (fun r => r.1.hazard) heq2; simp only [sendLines_hz] at e; exact e.symm.trans h)
+    · exact h
+  | register name => exact absurd hst (by simp [OpStatic])
+  | setGeneric v => exact ⟨rfl, rfl⟩
+
+/-- every operation of the history is static with respect to the (constant) table `t` -/
+def HistStatic (c : Cfg) (t : Table) (ops : List Op) : Prop := ∀ op ∈ ops, OpStatic c t op
+
+theorem run_static {cfg : MCfg} (c : Cfg) : ∀ (ops : List Op) {w : W MDev}, Inv c cfg w → HistOK c cfg w ops →
+    HistStatic c w.tbl ops → (run c (modeDev cfg) w ops).hazard = w.hazard := by
+  intro ops
+  induction ops with
+  | nil => intro w _ _ _; rfl
+  | cons op ops ih =>
+    intro w hi hh hs
+    obtain ⟨h1, h2⟩ := step_static c hi op hh.1 (hs op (by simp)) (cfg := cfg)
+    obtain ⟨s1, _⟩ := step_inv c hi op hh.1 (cfg := cfg)
+    have := ih s1 hh.2 (by rw [h2]; exact fun o ho => hs o (List.mem_cons_of_mem _ ho))
+    exact this.trans h1
 
 end Scrapli.Priv
